@@ -62,7 +62,8 @@ CLAIMS.update({
              "clz/ctz/popcnt, extensions, wrap, reinterpret), every f32/f64 binary instruction incl. min/max/copysign and comparisons, abs/neg/ceil/floor/trunc/sqrt, all 16 trapping and saturating float-to-int truncations "
              "and all int-to-float conversions, demote and promote equal the specification for ALL operand values (floats via the SMT floating-point theory; any arithmetic NaN accepted where the specification yields NaN). "
              "Machine level (L2): the integer instructions with operands from parameters (71 programs) and with a constant operand (immediates, strength reduction; constants on the right AND on the left; every i32/i64 comparison with a constant on either side consumed as a value, by select and by if) are compiled by the real wazevo front end and amd64 back end "
-             "and the reference evaluator of the final machine instructions is compared with the interpreter for all operand values. f32/f64.nearest, v128 instructions, floating point at machine level, the byte encoder and arm64 are outside this claim."),
+             "and the reference evaluator of the final machine instructions is compared with the interpreter for all operand values. A v128 subset at machine level (family T6, 112 programs: bitwise incl. not/andnot/bitselect, i8x16..i64x2 add/sub, i16x8/i32x4/i64x2 shifts with run-time counts and constant counts at and beyond the lane width, lane replace (parameter and fused load) and extract for every lane shape): machine code == interpreter for all lane values. "
+             "f32/f64.nearest, the other v128 instructions, floating point at machine level, the byte encoder and arm64 are outside this claim."),
     "C08": dict(level="model_checking", engine="gosym", technique=E1_TECH, design_ref="DESIGN.md §5 C08",
         text="Interpreter side: for every stack-based host function signature of 0..3 params and 0..2 results over {i32,i64,f32,f64} and all values, the host receives exactly the guest's values and guest and Go caller "
              "(Call and CallWithStack) receive exactly the host's results; reflection-defined host functions (a model of the reflect calls callGoFunc makes) for four representative signatures; api Encode/Decode round trips. "
